@@ -316,6 +316,8 @@ func alphabet(prop string, thorough bool) []Op {
 		}
 		return pick("edit:src/a.txt", "edit:pkg/b.txt", "rename:dir/y.txt<->z.txt", "addremove:dir/w.txt", "const:K", "default:leaf.d", "code:helper", "closure:V",
 			"edge:top->leaf", "fail:mid", "delete:gen/g.txt", "build:top", "build:mid", "build:gen", "build:leaf", "build:mid+top(one load)")
+	case "C04":
+		return pick("edit:src/a.txt", "edit:pkg/b.txt", "dep:diamond", "edge:top->leaf", "const:K", "fail:gen", "build:top", "build:mid", "build:leaf", "build:top:always")
 	case "C02":
 		if thorough {
 			return pick(all...)
@@ -456,6 +458,9 @@ func (x *searcher) step(s *State, op Op) []*State {
 		}
 	}
 	x.checkProtocol(s, n, o, res)
+	if x.prop == "C04" && !o.GC {
+		x.checkOnce(s, n, o, res)
+	}
 	switch {
 	case o.GC:
 		x.checkGC(s, n, o, res)
